@@ -27,4 +27,16 @@ def frameSkipZeroGuard : Bool := true
     past it and then closed the connection on a short remainder). -/
 def frameFallThrough : Bool := true
 
+/-- `_receive_message`'s catch-all handler answers only requests (false on the
+    pinned tree, which also "answered" a received answer whose handling raised). -/
+def answerOnlyRequests : Bool := false
+
+/-- The capabilities-exchange gate also drops everything received on a
+    CLOSING / CLOSED connection (false on the pinned tree). -/
+def gateClosing : Bool := false
+
+/-- A synchronous connect failure closes the socket and stops the connection's
+    workers (false on the pinned tree, which only removed the table entries). -/
+def connectFailCloses : Bool := false
+
 end DV.Config
